@@ -23,8 +23,8 @@ func Run(ctx *core.Ctx) {
 	model(ctx)
 	family(ctx)
 	literals(ctx)
-	random(ctx, ctx.Pick(6000, 500000))
-	printNodes(ctx, ctx.Pick(1500, 80000))
+	random(ctx, ctx.Pick(6000, 1500000))
+	printNodes(ctx, ctx.Pick(1500, 250000))
 	placeholderIdentity(ctx)
 }
 
